@@ -121,7 +121,8 @@ func errEdgesOf(fn *ssa.Function, w *ssa.Call) [][2]*ssa.BasicBlock {
 func runC07(p *core.Prog, r *core.Report) {
 	c07R1(p, r)
 	c07R2(p, r)
-	c07R3(p, r)
+	c07R3(p, r, "C07.R3")
+	c07R4(p, r)
 }
 
 // fileWriters are the (*os.File) methods that modify a file.
@@ -414,8 +415,7 @@ func c07R2(p *core.Prog, r *core.Report) {
 	}
 }
 
-func c07R3(p *core.Prog, r *core.Report) {
-	const rule = "C07.R3"
+func c07R3(p *core.Prog, r *core.Report, rule string) {
 	r.Rule(rule, "order between files: manifest file renamed into place before the index mentions it; on delete the index is rewritten before the file is removed", 3)
 	// (a) functions that rename a file and call updateIndex: rename dominates, and updateIndex only on rename success
 	upd := p.Method(ocidirRel, "OCIDir", "updateIndex")
@@ -425,19 +425,39 @@ func c07R3(p *core.Prog, r *core.Report) {
 		return
 	}
 	found := 0
+	// helpers: functions of the package that rename (or remove) a content file themselves and do not
+	// touch the index; a call of one counts as the rename (removal) at the call site
+	reachesIndex := reachers(p, map[*ssa.Function]bool{upd: true, wri: true})
+	renamers, removers := map[*ssa.Function]bool{}, map[*ssa.Function]bool{}
+	for _, fn := range pkgFuncs(p, ocidirRel) {
+		if fn == upd || fn == wri || reachesIndex[fn] || fn.Parent() != nil {
+			continue
+		}
+		if len(core.CallsTo(fn, func(f *types.Func) bool { return isOS(f, "Rename") })) > 0 {
+			renamers[fn] = true
+		}
+		if len(core.CallsTo(fn, func(f *types.Func) bool { return isOS(f, "Remove") || isOS(f, "RemoveAll") })) > 0 {
+			removers[fn] = true
+		}
+	}
 	for _, fn := range pkgFuncs(p, ocidirRel) {
 		if fn == upd || fn == wri {
 			continue
 		}
 		fname := p.FuncName(fn)
-		renames := core.CallsTo(fn, func(f *types.Func) bool { return isOS(f, "Rename") })
-		var idxCalls []ssa.CallInstruction
+		var renames, removes, idxCalls []ssa.CallInstruction
 		core.Calls(fn, func(c ssa.CallInstruction) {
-			if g := core.CalleeFn(c); g == upd || g == wri {
+			g := core.CalleeFn(c)
+			cal := core.Callee(c)
+			switch {
+			case g == upd || g == wri:
 				idxCalls = append(idxCalls, c)
+			case isOS(cal, "Rename") || (g != nil && renamers[g]):
+				renames = append(renames, c)
+			case isOS(cal, "Remove") || isOS(cal, "RemoveAll") || (g != nil && removers[g]):
+				removes = append(removes, c)
 			}
 		})
-		removes := core.CallsTo(fn, func(f *types.Func) bool { return isOS(f, "Remove") || isOS(f, "RemoveAll") })
 		lab := labeler{}
 		if len(renames) > 0 && len(idxCalls) > 0 {
 			for _, ic := range idxCalls {
@@ -539,4 +559,73 @@ func c07R3(p *core.Prog, r *core.Report) {
 // isRefPath: v is a load of field Path of a ref.Ref.
 func isRefPath(v ssa.Value) bool {
 	return fieldLoadOf(v, modPath("types/ref"), "Ref", "Path")
+}
+
+// ---------------------------------------------------------------------------------------------
+// R4 replace by rename, never unlink first
+
+// samePathValue: the two values denote the same path (same SSA value, same variable/field, or the
+// same Join of the same parts).
+func samePathValue(a, b ssa.Value, depth int) bool {
+	if a == b {
+		return true
+	}
+	if depth > 4 {
+		return false
+	}
+	if pa, pb := accessPath(a), accessPath(b); pa != "" && pa == pb && !strings.HasPrefix(pa, "call@") && !strings.HasPrefix(pa, "phi@") {
+		return true
+	}
+	ca, oka := a.(*ssa.Call)
+	cb, okb := b.(*ssa.Call)
+	if oka && okb {
+		fa, fb := core.Callee(ca), core.Callee(cb)
+		if fa != nil && fa == fb && fa.Name() == "Join" {
+			ea, eb := variadicElems(ca.Call.Args[len(ca.Call.Args)-1]), variadicElems(cb.Call.Args[len(cb.Call.Args)-1])
+			if len(ea) == 0 || len(ea) != len(eb) {
+				return false
+			}
+			for i := range ea {
+				if !samePathValue(ea[i], eb[i], depth+1) {
+					return false
+				}
+			}
+			return true
+		}
+	}
+	return false
+}
+
+func c07R4(p *core.Prog, r *core.Report) {
+	const rule = "C07.R4"
+	r.Rule(rule, "an existing file is replaced by the rename itself: no os.Remove of the rename's destination can precede the rename (between the unlink and the rename the digest-named file does not exist; a crash there breaks every image that shares it)", 3)
+	n := 0
+	for _, fn := range pkgFuncs(p, ocidirRel) {
+		renames := core.CallsTo(fn, func(f *types.Func) bool { return isOS(f, "Rename") })
+		if len(renames) == 0 {
+			continue
+		}
+		removes := core.CallsTo(fn, func(f *types.Func) bool { return isOS(f, "Remove") || isOS(f, "RemoveAll") })
+		lab := labeler{}
+		for _, rn := range renames {
+			n++
+			label := lab.next("os.Rename destination")
+			dst := core.CallArg(rn, 1)
+			bad := ""
+			for _, rm := range removes {
+				if !samePathValue(core.CallArg(rm, 0), dst, 0) {
+					continue
+				}
+				if (core.Reach{}).FromInstr(rm.(ssa.Instruction))[rn.(ssa.Instruction)] {
+					bad = p.Pos(rm.Pos())
+				}
+			}
+			if bad != "" {
+				r.Violated(rule, p.FuncName(fn), label, p.Pos(rn.Pos()), "the destination is removed at "+bad+" before the rename: a crash in between leaves the layout without a file that existing entries refer to")
+			} else {
+				r.Held(rule, p.FuncName(fn), label, p.Pos(rn.Pos()), "no removal of the destination precedes the rename")
+			}
+		}
+	}
+	_ = n
 }
